@@ -7,7 +7,7 @@ C = None
 def _node():
     from bounded import nodelib
     from frappy.modules import Drivable, Readable, Parameter, Command, Module
-    from frappy.datatypes import FloatRange, IntRange, StringType, EnumType
+    from frappy.datatypes import FloatRange, IntRange, StringType, EnumType, ArrayOf, StructOf
 
     class Dev(Drivable):
         value = Parameter('v', FloatRange(0, 10), default=1)
@@ -19,6 +19,8 @@ def _node():
         off = Parameter('falsy constant', FloatRange(), constant=0.0, default=3.0)
         hidden = Parameter('not exported', FloatRange(), default=0, readonly=False, export=False)
         ro = Parameter('readonly custom', FloatRange(), default=2)
+        arr = Parameter('variable-length array, currently full', ArrayOf(FloatRange(0, 10), 0, 3), default=(1, 2, 3), readonly=False)
+        pid = Parameter('struct', StructOf(p=FloatRange(0, 10), i=FloatRange(0, 10), optional=['i']), default={'p': 1, 'i': 2}, readonly=False)
         ex = Parameter('custom, export=True given again in the configuration', FloatRange(), default=2, readonly=False)
         late = Parameter('custom, unexported in the class, exported by the configuration', FloatRange(), default=2, readonly=False, export=False)
 
@@ -45,7 +47,7 @@ def _node():
 
 
 NAMES = ['renamed', 'value', 'target', 'text', '_text', 'fixed', '_fixed', '_zero', '_blank', '_off', 'zero', 'hidden', '_hidden', 'ro', '_ro', 'twice', '_twice', 'secret', '_secret',
-         'ex', '_ex', 'late', '_late', 'stop', 'status', 'pollinterval', 'nosuch', '', 'accessibles', 'name', 'True', '_value']
+         '_arr', '_pid', 'ex', '_ex', 'late', '_late', 'stop', 'status', 'pollinterval', 'nosuch', '', 'accessibles', 'name', 'True', '_value']
 MODS = ['m', 'n', 'q', 'x', '']
 
 
@@ -63,7 +65,12 @@ def gen_requests(tier, rng):
         for mod in MODS:
             for name in NAMES + [None]:
                 spec = mod if name is None else f'{mod}:{name}'
-                for payload in ([data[action]] if action != 'do' else [None, 2]):
+                payloads = [data[action]] if action != 'do' else [None, 2]
+                if action == 'change':
+                    payloads = [1, [1], [], [1, 2], [1, 2, 3, 4], [11], 'x', 11, 2.5, True, None, {'p': 3}, {'p': 3, 'i': 4}, {'i': 4}, {'p': 11}]
+                for payload in payloads:
+                    if 'm' in srv.secnode.modules:
+                        srv.secnode.modules['m'].parameters['arr'].value = (1.0, 2.0, 3.0)
                     d._subscriptions.clear()
                     d._active_connections.clear()
                     msg = (action, spec, payload)
